@@ -32,12 +32,20 @@ GenInit == Init /\ pin \in Pins /\ hist = <<>>
 GenAdd == \E s \in Sources : LET r == GenRoute(s, pin) IN
             /\ Add(r)
             /\ hist' = Append(hist, [ev |-> "Add", r |-> r])
+(* re-advertisement: a present route comes again, identical except for its age (a refresh, a
+   next-hop-only change of an MP family, ...) - the list position must follow the new age *)
+GenReadv == \E i \in 1..Len(list) : LET r == [list[i] EXCEPT !.ts = RandomElement(1..3)] IN
+            /\ Add(r)
+            /\ hist' = Append(hist, [ev |-> "Add", r |-> r])
+GenReadvHead == list # <<>> /\ LET r == [list[1] EXCEPT !.ts = RandomElement(1..3)] IN
+            /\ Add(r)
+            /\ hist' = Append(hist, [ev |-> "Add", r |-> r])
 GenWithdraw == \E s \in Sources :
             /\ Withdraw(s)
             /\ hist' = Append(hist, [ev |-> "Withdraw", src |-> s])
 
 GenNext == /\ Len(hist) < MaxSteps
-           /\ (GenAdd \/ GenWithdraw)
+           /\ (GenAdd \/ GenWithdraw \/ GenReadv \/ GenReadvHead \/ GenReadvHead)
            /\ UNCHANGED pin
 
 GenSpec == GenInit /\ [][GenNext]_gvars
